@@ -33,6 +33,23 @@ static bool   fmt_unknown;     /* an unmodelled directive was met: model limitat
 static char   fmt_stdout[FMT_STDOUT_MAX];
 static size_t fmt_stdout_len;
 
+#ifdef FMT_FIXED16
+/* C14 variant: what matters for text equality is only WHICH value is printed WHERE, so integers and doubles are
+   rendered by a fixed-width injective function (16 hex digits of the 64 bits); no symbolic length, much cheaper */
+static inline unsigned fmt_int_len(int64_t v) { (void) v; return 16; }
+static inline char fmt_int_char(int64_t v, unsigned i)
+{
+    unsigned d = (unsigned) ((((uint64_t) v) >> (4u * (15u - (i & 15u)))) & 15u);
+    return (char) (d < 10 ? '0' + d : 'a' + (d - 10));
+}
+static inline unsigned fmt_double_len(uint64_t bits) { (void) bits; return 17; }
+static inline char fmt_double_char(uint64_t bits, unsigned i)
+{
+    if (i == 0) return 'd';
+    unsigned d = (unsigned) ((bits >> (4u * (16u - (i & 31u)))) & 15u);
+    return (char) (d < 10 ? '0' + d : 'a' + (d - 10));
+}
+#else
 /* number of characters of the decimal rendering of v */
 static inline unsigned fmt_int_len(int64_t v)
 {
@@ -73,6 +90,7 @@ static inline char fmt_double_char(uint64_t bits, unsigned i)
 {
     return (char) ('a' + ((bits >> (4u * (i & 15u))) & 15u));
 }
+#endif
 
 struct fmt_sink {
     char  *s;          /* NULL for printf */
@@ -135,12 +153,18 @@ static inline void fmt_run(struct fmt_sink *k, const char *fmt, va_list ap)
             int w = va_arg(ap, int);
             int prec = va_arg(ap, int);
             const char *s = va_arg(ap, const char *);
-            (void) w;
+            /* length actually printed: up to the precision, stopping at a NUL; a field width larger than that pads
+               with spaces on the left (negative width: on the right) - exactly what printf does */
+            int len = 0;
             for (int j = 0; j < FMT_STR_MAX; j++) {
                 if (prec >= 0 && j >= prec) break;
                 if (s[j] == 0) break;
-                fmt_emit(k, s[j]);
+                len++;
             }
+            int aw = w < 0 ? -w : w;
+            if (w > 0) { for (int j = 0; j < FMT_STR_MAX; j++) { if (j < aw - len) fmt_emit(k, ' '); } }
+            for (int j = 0; j < FMT_STR_MAX; j++) { if (j < len) fmt_emit(k, s[j]); }
+            if (w < 0) { for (int j = 0; j < FMT_STR_MAX; j++) { if (j < aw - len) fmt_emit(k, ' '); } }
         } else if (c == '0' && fmt[i + 1] == '2' && fmt[i + 2] == 'x') {
             i += 2;
             /* the argument arrives promoted to int (model/fmt_promote.h); %x converts it to unsigned int:
